@@ -32,6 +32,16 @@ def gen_data(rng, n, d, kind):
     if kind == "dups":
         base = [[float(rng.randint(0, 2)) for _ in range(d)] for _ in range(max(1, n // 2))]
         return np.array([list(rng.choice(base)) for _ in range(n)])
+    if kind == "sparse":
+        # count / histogram data: exact zeros shared by several samples
+        A_ = np.array([[float(rng.choice([0, 0, 0, 1, 2, 5])) for _ in range(max(d, 3))] for _ in range(n)])
+        for r in range(n):
+            if A_[r].sum() == 0:
+                A_[r][rng.randrange(A_.shape[1])] = 1.0
+        return A_
+    if kind == "tiny":
+        # a very small numeric scale (squared distances far below 1e-5)
+        return np.array([[rng.gauss(0, 1) * 1e-3 for _ in range(d)] for _ in range(n)])
     if kind == "blobs":
         cs = [[rng.uniform(-5, 5) for _ in range(d)] for _ in range(3)]
         return np.array([[c + rng.gauss(0, 0.7) for c in rng.choice(cs)] for _ in range(n)])
@@ -62,8 +72,13 @@ def run(rng, tier, res=None, want=("knnpred", "select")):
         unsup = rng.random() < 0.5
         n = rng.choice([3, 4, 5, 6, 8, 10, 12 if tier == "quick" else 16])
         d = rng.choice([1, 2, 3])
-        kind = rng.choice(["lattice", "lattice", "dups", "blobs", "normal"])
+        kind = rng.choice(["lattice", "lattice", "dups", "blobs", "normal", "sparse", "tiny"])
         metric = rng.choice(["squared_euclidean", "euclidean", "manhattan", "log_squared_euclidean", "pearson", "neyman"])
+        if kind == "sparse":
+            metric = rng.choice(["canberra", "bray_curtis", "chi_squared", "clark"])   # zero-guarded ratio metrics on data with zeros
+            d = max(d, 3)
+        if kind == "tiny":
+            metric = rng.choice(["squared_euclidean", "euclidean"])
         asym = metric in ("pearson", "neyman")     # d(x, t) != d(t, x): the orientation of every evaluation matters
         fn = dist.DISTANCES[metric]
         X = gen_data(rng, n, d, kind)
@@ -94,6 +109,12 @@ def run(rng, tier, res=None, want=("knnpred", "select")):
                 Q[t] = X[rng.randrange(n)]
         if nq >= 2 and rng.random() < 0.3:
             Q[1] = Q[0]
+        far = False
+        if (not asym) and kind != "sparse" and rng.random() < 0.25:
+            # a finite but very distant sample (every distance overflows): it has no usable neighbour, whatever came before it
+            Q = np.vstack([Q, np.full((1, Q.shape[1]), 1e200)]); Q[-1][0] = -1e200
+            nq += 1; far = True
+            res.hit("query_without_usable_neighbour")
         # pre-computed mode: the samples are rows of a larger pool, in a shuffled order, addressed through index arrays
         # (KNN-supervised training refuses a matrix larger than its training set, so it is driven through features only)
         pre = unsup and rng.random() < 0.5
@@ -123,7 +144,10 @@ def run(rng, tier, res=None, want=("knnpred", "select")):
                 import opfython.subgraphs.knn as KN
 
                 def exp_wrap(a, _t=exp_tape):
-                    v = real_np.exp(a); _t.append((float(a), float(v))); return v
+                    v = real_np.exp(a)
+                    for a_, v_ in zip(real_np.asarray(a, dtype=float).ravel(), real_np.asarray(v, dtype=float).ravel()):
+                        _t.append((float(a_), float(v_)))      # element-wise, should the code under test exponentiate a whole array
+                    return v
                 KN.np = Proxy(real_np, exp=exp_wrap)
                 o = US.UnsupervisedOPF(min_k=min_k, max_k=max_k, distance=metric)
                 if pre:
@@ -160,13 +184,36 @@ def run(rng, tier, res=None, want=("knnpred", "select")):
                         viol("C16", f"validation accuracy evaluated as opf_accuracy({[int(t) for t in a][:6]}..., ...): its first argument is not the "
                                     f"validation labels {Yv.tolist()[:6]}... (true and predicted labels exchanged?)", meta)
                     v = G.opf_accuracy(a, b)
+                    try:
+                        from fractions import Fraction as _Fr
+                        la_, pb_ = [int(t) for t in a], [int(t) for t in b]
+                        Kc = max(max(la_), max(pb_)) + 1; Nn = len(la_)
+                        tot_ = _Fr(0)
+                        for c_ in range(Kc):
+                            nc_ = la_.count(c_)
+                            fp_ = sum(1 for l_, p_ in zip(la_, pb_) if l_ != p_ and p_ == c_)
+                            fn_ = sum(1 for l_, p_ in zip(la_, pb_) if l_ != p_ and l_ == c_)
+                            if Nn - nc_ > 0:
+                                tot_ += _Fr(fp_, Nn - nc_)
+                            if nc_ > 0:
+                                tot_ += _Fr(fn_, nc_)
+                        want_ = 1 - tot_ / (2 * Kc)
+                        if abs(float(want_) - float(v)) > 1e-12:
+                            for pp_ in ("C16", "C20"):
+                                viol(pp_, f"validation accuracy used to rank k is {float(v)!r}; the OPF accuracy of labels {la_} / predictions {pb_} "
+                                          f"(classes absent from the labels keep their false-positive rate) is {float(want_)!r}", meta)
+                    except Exception:
+                        pass
                     if inject:
                         v = inj[len(crit)]
                     crit.append(v); return v
                 import opfython.subgraphs.knn as KN
 
                 def exp_wrap2(a, _t=exp_tape):
-                    v = real_np.exp(a); _t.append((float(a), float(v))); return v
+                    v = real_np.exp(a)
+                    for a_, v_ in zip(real_np.asarray(a, dtype=float).ravel(), real_np.asarray(v, dtype=float).ravel()):
+                        _t.append((float(a_), float(v_)))
+                    return v
                 KS.g = Proxy(G, opf_accuracy=acc_wrap)
                 KN.np = Proxy(real_np, exp=exp_wrap2)
                 KS.np = Proxy(real_np, exp=exp_wrap2)
@@ -271,13 +318,34 @@ def run(rng, tier, res=None, want=("knnpred", "select")):
                 wantc = sum((exte[l] / (inte[l] + exte[l]) for l in range(sg.n_clusters) if inte[l] + exte[l] > 0), Fr(0))
                 if abs(float(wantc) - cutv) > 1e-9 * max(1, abs(cutv)):
                     viol("C16", f"normalised cut {cutv} != sum over clusters of external/(internal+external) = {float(wantc)}", meta)
+            if unsup and not inject:
+                # the candidates' criterion values, re-derived with each candidate's OWN bound computed from the raw distances
+                try:
+                    srt3 = [sorted(float(fn(X[i_], X[j_])) for j_ in range(n) if j_ != i_) for i_ in range(n)]
+                    md3 = [max(srt3[i_][l_] for i_ in range(n)) if l_ < n - 1 else 0.0 for l_ in range(max_k)]
+                    sg3 = KNNSubgraph(X.copy(), Y.copy())
+                    o3 = US.UnsupervisedOPF(min_k=min_k, max_k=max_k, distance=metric); o3.subgraph = sg3
+                    sg3.create_arcs(max_k, fn, False, None)
+                    cuts3 = []
+                    for k3, _v in crit:
+                        sg3.density = md3[k3 - 1]; sg3.best_k = k3
+                        sg3.calculate_pdf(k3, fn, False, None); o3._clustering(k3); cuts3.append(float(orig_cut.__func__(o3, k3)))
+                    if [fb(c_) for c_ in cuts3] != [fb(v_) for _k, v_ in crit] and not any(c_ != c_ for c_ in cuts3):
+                        viol("C16", f"criterion values seen by the search {[(k_, v_) for k_, v_ in crit]} differ from the normalised cuts of the "
+                                    f"candidates built with their own k-th-neighbour bound {cuts3}", meta)
+                    res.hit("candidate_cuts_rederived")
+                except Exception as ex:
+                    res.notes.append(f"candidate re-derivation skipped: {type(ex).__name__}")
             # final model is the one built with best_k (same running density bound)
             sg2 = KNNSubgraph(X.copy(), Y.copy())
             if unsup:
                 o2 = US.UnsupervisedOPF(min_k=min_k, max_k=max_k, distance=metric)
                 o2.subgraph = sg2
-                md = sg2.create_arcs(max_k, fn, False, None)
+                sg2.create_arcs(max_k, fn, False, None)
                 sg2.destroy_arcs()
+                # per-rank maxima recomputed from the raw distances (not taken from create_arcs' return value)
+                srt_ = [sorted(float(fn(X[i_], X[j_])) for j_ in range(n) if j_ != i_) for i_ in range(n)]
+                md = [max(srt_[i_][l_] for i_ in range(n)) if l_ < n - 1 else 0.0 for l_ in range(max_k)]
                 sg2.density = md[crit[-1][0] - 1]
                 sg2.create_arcs(best_k, fn, False, None)
                 sg2.calculate_pdf(best_k, fn, False, None)
@@ -296,6 +364,8 @@ def run(rng, tier, res=None, want=("knnpred", "select")):
                 f2 = [(a.pred, a.root, a.predicted_label, fb(a.cost), fb(a.density)) for a in sg2.nodes]
             if f1 != f2:
                 viol("C16", f"final model differs from the one built with best_k={best_k}: {f1[:3]} vs {f2[:3]}", meta)
+                viol("C13", f"the clustering left by fit is not the clustering of the best_k={best_k} graph with the best_k densities "
+                            f"(pred/root/label/cost/density of the first nodes: {f1[:3]} vs {f2[:3]})", meta)
             res.hit("final_model_checked")
             if not unsup:
                 if [a.predicted_label for a in nd] != [int(v) for v in Y]:
@@ -325,6 +395,9 @@ def run(rng, tier, res=None, want=("knnpred", "select")):
             ci = 0
             for t in range(nq):
                 dists = [fn(Q[t], X[j]) for j in range(n)]
+                if not all(np.isfinite(v) for v in dists):
+                    res.hit("knnq_nonfinite_distances_skipped")     # outside C14's rule; C09's context-independence still checked below
+                    continue
                 order = sorted(range(n), key=lambda j: (dists[j], j))[:best_k]
                 m = len(order)
                 mine = calls[ci:ci + m]; ci += m
